@@ -144,4 +144,13 @@ theorem getter_takes_no_parameters (env : Env) (m : MethodInfo) (h : (env.parseG
   · rename_i hn
     simpa using hn
 
+/-- a call that also returns an error is never wrapped: whatever `castNode` returns for it is the
+call itself (repair of the `string(cvE(x))` defect) -/
+theorem castNode_never_wraps_error_call (lhsT : TyId) (rhs n : Node) (w : List String)
+    (h : ctx.castNode lhsT rhs = .ok (some n, w)) (he : rhs.returnsError = true) : n = rhs := by
+  rcases C04.castNode_cases ctx lhsT rhs n w h with h1 | h2 | h3
+  · exact h1.1
+  · rw [h2.2.2.2.2] at he; cases he
+  · rw [h3.2.2.2] at he; cases he
+
 end Convergen.Props.C01
